@@ -426,7 +426,7 @@ def main():
     prog = PROG = H.load_program(['canister'])
     btc.load_dep_decls(prog)
     rep.cov['mir'] = dict(prog.info)
-    N = 3 if tier == 'quick' else 4
+    N = 3 if tier == 'quick' else 5
     R = 2 if tier == 'quick' else 3
     rep.cov['bounds'] = dict(tree_blocks=N, response_blocks=R, announced_headers=3, stable_height='symbolic u32',
                              per_block='decodes? x parent in {tree blocks, earlier response blocks, stable-only, unknown, a header that was only announced, an announced header on top of that} x re-send of an existing block? x validator verdict',
